@@ -267,6 +267,48 @@ func Run(r *core.Run) {
 		mu.Unlock()
 	})
 
+	// the same in-memory key data used for consecutive sessions (different signer sets, orders and digests):
+	// every session must give a valid signature ("any key produced by DKG, any signer set, any digest" also
+	// holds for a key that has already signed)
+	for _, kc := range []keyCase{kcs[1], kcs[2]} {
+		held := make([]eckg.LocalPartySaveData, len(kc.keys))
+		for i := range kc.keys {
+			held[i] = kc.keys[i]
+			held[i].Xi = new(big.Int).Set(kc.keys[i].Xi) // this block's own copy of the secret (the sessions share it)
+		}
+		subs := subsetsAtLeast(len(held), kc.t+1)
+		for si := 0; si < 4; si++ {
+			sub := subs[(si*2+1)%len(subs)]
+			d := ds[(si*3+1)%len(ds)]
+			keys := make([]eckg.LocalPartySaveData, len(sub))
+			for k, s := range sub {
+				keys[k] = held[s]
+			}
+			name := fmt.Sprintf("%s/session %d on the same key data/signers=%v/digest=%s", kc.name, si+1, sub, d.name)
+			cfg := netrun.Config{Proto: netrun.EcdsaSigning, EcKeys: keys, Threshold: kc.t, Msg: d.m, Seed: r.Seed, Label: fmt.Sprint("repeat", kc.name, si), ShareKeys: true, IDOrder: orderFor(si, len(sub))}
+			nw, err := netrun.New(cfg)
+			if err != nil {
+				r.Violate("repeat/constructor-error", err.Error(), name)
+				break
+			}
+			_, e, pan := nw.RunFIFO()
+			r.Count("repeat_sessions", 1)
+			if len(pan) > 0 || e != nil {
+				r.Violate(fmt.Sprintf("repeat/session-%d-fails", si+1), fmt.Sprintf("a later session on key data that has already signed fails: %v %v", e, pan), name)
+				break
+			}
+			for p, n := range nw.Nodes {
+				if len(n.Ends) != 1 {
+					r.Violate("repeat/no-result", fmt.Sprintf("node %d has %d results", p, len(n.Ends)), name)
+					continue
+				}
+				for _, pr := range oracle.CheckEcdsaSig(n.Ends[0].(*common.SignatureData), keys[0].ECDSAPub, d.m, 0) {
+					r.Violate("repeat/"+pr.Key, pr.What, name)
+				}
+			}
+		}
+	}
+
 	// refused digests: Start must return an error and nothing may have been sent
 	q := ref.Secp256k1.N
 	for _, bad := range []digestCase{{"q", q}, {"q+1", new(big.Int).Add(q, big.NewInt(1))}, {"2^256-1", new(big.Int).Sub(new(big.Int).Lsh(big.NewInt(1), 256), big.NewInt(1))}} {
